@@ -71,6 +71,10 @@ def cases(tier, seed):
                         if dg == "eigvec-sparse" and vt == "sympy":
                             continue
                         out.append(dict(kind="format", base=b, k=k, fmt=fmt, vtype=vt, desig=dg, seed=seed))
+        # the `symbols=` argument: perturbative symbols listed in reverse order (order indices swap), a bare Symbol
+        out.append(dict(kind="format", base=b, k=2, fmt="sympy-symbols", vtype="sympy", desig="indices", seed=seed, symrev=True))
+        out.append(dict(kind="format", base=b, k=2, fmt="sympy-symbols", vtype="sympy", desig="eigvec-dense", seed=seed, symrev=True))
+        out.append(dict(kind="format", base=b, k=1, fmt="sympy-symbols", vtype="sympy", desig="indices", seed=seed, symsingle=True))
         # further value containers: reduced precision, memory layout, read-only buffers, other sparse formats,
         # legacy matrix classes, immutable sympy matrices
         for vt in VTYPES_EXTRA:
@@ -182,6 +186,17 @@ def collect(outs, cfg, k, total, exact, strip=None):
             else:
                 res[name][n] = assemble(StripSeries(s, strip), cfg["sizes"], n, exact, pos)
     return res
+
+
+class RevOrders:
+    """View of a series computed with the perturbative symbols listed in reverse order."""
+
+    def __init__(self, s):
+        self.s = s
+
+    def __getitem__(self, idx):
+        i, j, *n = idx
+        return self.s[(i, j) + tuple(reversed(n))]
 
 
 class StripSeries:
@@ -322,6 +337,10 @@ def run_format(case):
             Hs = Hs + mon * conv_value(m, "sympy")
         Hin = Hs
         kwargs["symbols"] = list(syms)
+        if case.get("symrev"):
+            kwargs["symbols"] = list(syms)[::-1]
+        if case.get("symsingle"):
+            kwargs["symbols"] = syms[0]
         strip = list(syms)
     elif fmt == "nested-blocks":
         off = offsets(cfg["sizes"])
@@ -361,6 +380,8 @@ def run_format(case):
     held = [(lbl, v, v.copy()) for lbl, v in (list(enumerate(Hin)) if isinstance(Hin, list) else list(Hin.items()) if isinstance(Hin, dict) else [])
             if isinstance(v, np.ndarray)]
     outs = block_diagonalize(Hin, **kwargs)
+    if case.get("symrev"):
+        outs = [RevOrders(o) for o in outs]
     got = collect(outs, cfg, k, total, exact, strip)
     V = []
     for lbl, v, snap in held:
